@@ -205,8 +205,7 @@ FLOORS = {
 
 def run_family(tier, seed, binary=None):
     t0 = time.time()
-    vk.clean_tmp()
-    workdir = os.path.join(vk.CACHE, "work", FAMILY)
+    workdir = os.path.join(vk.CACHE, "work", FAMILY + vk.repo_tag())
     shutil.rmtree(workdir, ignore_errors=True)
     os.makedirs(workdir)
     result, errors = {}, []
@@ -253,7 +252,7 @@ def slim(d):
 
 def replay(schedule, binary=None):
     """Execute one schedule and return its monitor failures."""
-    workdir = os.path.join(vk.CACHE, "work", FAMILY + "_replay")
+    workdir = os.path.join(vk.CACHE, "work", FAMILY + "_replay" + vk.repo_tag())
     shutil.rmtree(workdir, ignore_errors=True)
     os.makedirs(workdir)
     if binary is None:
